@@ -34,7 +34,43 @@ static void maybe_yield() {
         else std::this_thread::yield();
     }
 }
+// ---- controlled executions: the order of the hook events follows a schedule taken from a TLC behaviour of SysSync.tla -----------------
+// g_sched[i] is the thread that performs the i-th state-changing hook event.  A thread that reaches such a hook waits until the schedule
+// names it.  If the named thread cannot move for 3 ms (the model and the code disagree about what is enabled, or the alignment was lost),
+// its entry is skipped and counted as a stall: the schedule is a way to reach interleavings, never a source of verdicts.
+static std::vector<int> g_sched; static size_t g_spos = 0; static bool g_ctl = false; static int g_stalls = 0;
+static std::mutex g_sm; static std::condition_variable g_scv; static std::chrono::steady_clock::time_point g_progress;
+static bool consuming(const char *k) {      // hook kinds that are steps of the model (the others are plain scheduling points)
+    return !(strcmp(k, "sl_unlocked") == 0 || strcmp(k, "ev_wenter") == 0 || strcmp(k, "ev_senter") == 0 || strcmp(k, "ev_sleft") == 0 || strcmp(k, "sq_size") == 0); }
+// gate: wait (without consuming) until the schedule names this thread; consume: this thread has made the step the schedule named
+static int g_mismatch = 0;
+static void gate(int t) {
+    std::unique_lock<std::mutex> lk(g_sm);
+    while (g_ctl && g_spos < g_sched.size() && g_sched[g_spos] != t) {
+        if (g_scv.wait_for(lk, std::chrono::microseconds(200)) == std::cv_status::timeout) {
+            auto now = std::chrono::steady_clock::now();
+            if (now - g_progress > std::chrono::milliseconds(10) && g_spos < g_sched.size() && g_sched[g_spos] != t) { ++g_stalls; ++g_spos; g_progress = now; g_scv.notify_all(); }
+        }
+    }
+}
+static void consume(int t) {
+    std::lock_guard<std::mutex> lk(g_sm);
+    if (g_ctl && g_spos < g_sched.size() && g_sched[g_spos] == t) { ++g_spos; g_progress = std::chrono::steady_clock::now(); g_scv.notify_all(); } else ++g_mismatch;
+}
 extern "C" void igris_verif_point(const char *kind, const void *obj, long val) {
+    if (g_ctl) {
+        if (kind[0] == 'u' && kind[2] == 'u') { g_unlinked.fetch_add(1, std::memory_order_relaxed); ++tl_unlinked; }
+        else if (kind[0] == 'w' && kind[2] == 'e') g_enq.fetch_add(1, std::memory_order_relaxed);
+        bool cons = consuming(kind);
+        if (tl_tid > 0 && tl_tid < 5 && cons) consume(tl_tid);
+        if (g_logging) { std::lock_guard<std::mutex> g(g_logm); if (g_log.size() < 20000) g_log.push_back(Rec{kind, tl_tid, obj, val}); }
+        // wait for the next turn where the step just reported has really taken effect: after the mutex has been released for the releasing
+        // steps (sl_unlocked / ev_sleft follow sl_rel / ev_sunlock), and not at all before parking (ev_test with the flag clear) or sl_save
+        bool g = cons ? !(strcmp(kind, "sl_rel") == 0 || strcmp(kind, "ev_sunlock") == 0 || strcmp(kind, "sl_save") == 0 || (strcmp(kind, "ev_test") == 0 && val == 0))
+                      : (strcmp(kind, "sl_unlocked") == 0 || strcmp(kind, "ev_sleft") == 0);
+        if (tl_tid > 0 && tl_tid < 5 && g) gate(tl_tid);
+        return;
+    }
     if (kind[0] == 'u' && kind[2] == 'u') { g_unlinked.fetch_add(1, std::memory_order_relaxed); ++tl_unlinked; }   // u_unlink
     else if (kind[0] == 'w' && kind[2] == 'e') g_enq.fetch_add(1, std::memory_order_relaxed);          // w_enq
     maybe_yield();     // before and after: a step may be delayed on either side of its report
@@ -56,8 +92,13 @@ static igris::safe_queue<int> *SQ;
 static std::vector<std::vector<long long>> rets;   // per thread: values returned by wait / pop
 static int n_waits = 0, n_pushes = 0;
 
+static std::atomic<int> g_arrived{0}; static int g_nth = 0;
 static void run_thread(int tid, unsigned seed) {
     tl_tid = tid; tl_rng = seed * 7919u + tid * 104729u + 1;
+    if (g_ctl) {      // controlled executions start when every thread exists (a thread that is still being created cannot take its turn)
+        g_arrived.fetch_add(1); while (g_arrived.load() < g_nth) std::this_thread::yield();
+        { std::lock_guard<std::mutex> lk(g_sm); g_progress = std::chrono::steady_clock::now(); }
+        gate(tid); }
     syslock_save_pair sv{0, 0};
     unsigned opi = 0;
     for (const Op &op : prog[tid]) {
@@ -75,6 +116,8 @@ static void run_thread(int tid, unsigned seed) {
             do { unwait_one(WQ, op.a); if (tl_unlinked == before) std::this_thread::sleep_for(std::chrono::microseconds(50)); }
             while (tl_unlinked == before && g_unlinked.load() < n_waits);
         }
+        else if (op.k == "unwait_once") unwait_one(WQ, op.a);          // exactly one call, as the model's unwait_one (controlled executions)
+        else if (op.k == "unwait_all_now") unwait_all(WQ, op.a);
         else if (op.k == "unwait_all") { while (g_enq.load() < n_waits) std::this_thread::sleep_for(std::chrono::microseconds(50)); unwait_all(WQ, op.a); }
         else if (op.k == "push") { SQ->push((int)op.a); }
         else if (op.k == "pop") { while (SQ->size() == 0) std::this_thread::sleep_for(std::chrono::microseconds(30)); rets[tid].push_back(SQ->pop()); }
@@ -91,15 +134,25 @@ int main(int argc, char **argv) {
         if (op == "P") { int tid = num(t[1]); Op o{t[2], t.size() > 3 ? num(t[3]) : 0, t.size() > 4 ? num(t[4]) : 0}; prog[tid].push_back(o); if (o.k == "wait" || o.k == "denq") ++n_waits; if (o.k == "push") ++n_pushes; return; }
         if (op == "GO") {
             unsigned seed = num(t[1]); g_logging = t.size() < 3 || t[2] != "race"; g_yield_pct = t.size() > 3 ? num(t[3]) : 30;
+            g_sched.clear(); g_spos = 0; g_stalls = 0; g_mismatch = 0; g_ctl = false;
+            if (t.size() > 4 && t[4].compare(0, 4, "ctl:") == 0) { for (auto x : list(t[4].substr(4))) g_sched.push_back((int)x); g_ctl = true; g_progress = std::chrono::steady_clock::now(); }
             alarm(0);
             g_log.clear(); g_unlinked = 0; g_enq = 0; g_finished = 0;
             WQ = new igris::dlist_base(); SQ = new igris::safe_queue<int>();
+            g_arrived = 0; g_nth = nth;
             std::vector<std::thread> th;
             for (int i = 1; i <= nth; ++i) th.emplace_back(run_thread, i, seed);
             // watchdog: all threads must finish
             auto t0 = std::chrono::steady_clock::now(); bool hung = false;
+            bool was_ctl = g_ctl; long sc_n = (long)g_sched.size(), sc_consumed = 0, sc_stalls = 0; bool rescued = false; std::thread rescue;
             while (g_finished.load() < nth) {
                 std::this_thread::sleep_for(std::chrono::milliseconds(1));
+                // a TLC behaviour may end with a waiter still parked (its waker ran before it queued): once the schedule is used up, a further
+                // thread (id 5) wakes whoever is left, as the closed programs of the other executions do
+                if (was_ctl && !rescued && std::chrono::steady_clock::now() - t0 > std::chrono::milliseconds(40)) {
+                    { std::lock_guard<std::mutex> lk(g_sm); sc_consumed = (long)g_spos; sc_stalls = g_stalls; g_ctl = false; g_scv.notify_all(); }
+                    rescued = true; rescue = std::thread([&] { tl_tid = 5; while (g_finished.load() < nth) { unwait_all(WQ, 999); std::this_thread::sleep_for(std::chrono::milliseconds(2)); } });
+                }
                 if (std::chrono::steady_clock::now() - t0 > std::chrono::seconds(3)) { hung = true; break; }
             }
             // event objects -> waiter thread (w_create carries the event address of that thread's waiter)
@@ -123,8 +176,11 @@ int main(int argc, char **argv) {
                     Ev e(x.kind); e.i("t", x.t).i("w", w).i("v", x.val); e.end();
                 }
             }
+            if (was_ctl) { { std::lock_guard<std::mutex> lk(g_sm); if (g_ctl) { sc_consumed = (long)g_spos; sc_stalls = g_stalls; g_ctl = false; g_scv.notify_all(); } }
+                Ev e("Sched"); e.i("t", 0).i("w", 0).i("v", 0).i("n", sc_n).i("consumed", sc_consumed).i("stalls", sc_stalls).i("mismatch", g_mismatch).i("rescued", rescued ? 1 : 0); e.end(); }
             if (hung) { Ev e("Hung"); e.i("finished", g_finished.load()); e.end(); flush(); _exit(0); }
             for (auto &x : th) x.join();
+            if (rescue.joinable()) rescue.join();
             for (int i = 1; i <= nth; ++i) { Ev e("Ret"); e.i("t", i).ints("vals", rets[i]); e.end(); }
             Ev e("End"); e.i("n", (long)g_log.size()); e.end();
             delete SQ; delete WQ;
